@@ -17,12 +17,14 @@ import sys
 import time
 
 V = "/verif"
-REPO = "/repo"
-WORK = os.path.join(V, "work")
+REPO = os.environ.get("VERIF_REPO", "/repo")
+# the overrides below are used only by tools/mutant.sh (private scratch copy of /repo + harness)
+_PRIV = os.environ.get("VERIF_PRIVATE")
+WORK = os.path.join(_PRIV or V, "work")
 CACHE = os.path.join(V, "cache")
-REPLAYS = os.path.join(V, "replays")
-EVID = os.path.join(V, "evidence")
-HARNESS = os.path.join(V, "harness")
+REPLAYS = os.path.join(_PRIV or V, "replays")
+EVID = os.path.join(_PRIV or V, "evidence")
+HARNESS = os.path.join(_PRIV or V, "harness")
 SPEC_DIRS = [os.path.join(V, "spec", d) for d in ("lib", "", "mc", "trace")]
 
 
@@ -182,27 +184,36 @@ def tlc_must_pass(*a, **kw):
 _built = {}
 
 
-def build_harness(pkg="vh"):
+def bin_for(domain):
+    """each domain may live in its own binary harness/vh/src/bin/vh_<domain>.rs so that a
+    compile error in one domain cannot break the checks of the others"""
+    if os.path.exists(os.path.join(HARNESS, "vh", "src", "bin", "vh_%s.rs" % domain)):
+        return "vh_" + domain
+    return "vh"
+
+
+def build_harness(pkg="vh", bin=None):
     """(Re)build the harness against /repo's current working tree."""
-    if pkg in _built:
-        return _built[pkg]
+    bin = bin or pkg
+    if (pkg, bin) in _built:
+        return _built[(pkg, bin)]
     lock = os.path.join(HARNESS, "Cargo.lock")
     if not os.path.exists(lock):
         shutil.copy(os.path.join(REPO, "Cargo.lock"), lock)
     e = dict(os.environ)
     e["CARGO_NET_OFFLINE"] = "true"
     t0 = time.time()
-    p = subprocess.run(["cargo", "build", "-q", "-p", pkg], cwd=HARNESS, env=e, stdout=subprocess.PIPE, stderr=subprocess.STDOUT, text=True)
+    p = subprocess.run(["cargo", "build", "-q", "-p", pkg, "--bin", bin], cwd=HARNESS, env=e, stdout=subprocess.PIPE, stderr=subprocess.STDOUT, text=True)
     if p.returncode != 0:
         raise ToolError("harness build failed (does /repo still compile?):\n" + p.stdout[-6000:])
-    log("harness %s built in %.1fs" % (pkg, time.time() - t0))
-    path = os.path.join(HARNESS, "target", "debug", pkg)
-    _built[pkg] = path
+    log("harness %s built in %.1fs" % (bin, time.time() - t0))
+    path = os.path.join(HARNESS, "target", "debug", bin)
+    _built[(pkg, bin)] = path
     return path
 
 
 def harness(args, pkg="vh", timeout=3600, stdin=None, env=None, check=True):
-    exe = build_harness(pkg)
+    exe = build_harness(pkg, bin_for(str(args[0])) if pkg == "vh" else None)
     e = dict(os.environ)
     if env:
         e.update({k: str(v) for k, v in env.items()})
